@@ -106,6 +106,10 @@ func respDomains() (ds []string) {
 		ds = append(ds, ip.String())
 	}
 
+	for _, ip := range MarkerV6 {
+		ds = append(ds, ip.String())
+	}
+
 	ds = append(ds, MarkerTargets...)
 	ds = append(ds, "mark.test")
 
@@ -124,7 +128,7 @@ func drawRespRule(t *rapid.T) (r Rule) {
 	case k < 9:
 		// A bare address or name: an exact-host rule.
 		ds := append([]string{}, MarkerTargets...)
-		for _, ip := range MarkerV4 {
+		for _, ip := range append(append([]netip.Addr{}, MarkerV4...), MarkerV6...) {
 			ds = append(ds, ip.String())
 		}
 
@@ -561,6 +565,85 @@ type UpAnswer struct {
 	V4     []netip.Addr
 	V6     []netip.Addr
 	Target string
+	// HTTPS are the HTTPS records of the UpHTTPS shape.
+	HTTPS []HTTPSRec
+}
+
+// HTTPSRec is one HTTPS record of an upstream answer: address hints of either
+// or both families, several addresses per hint, in either order.
+type HTTPSRec struct {
+	V4, V6  []netip.Addr
+	V6First bool
+}
+
+func drawAddrs(t *rapid.T, pool []netip.Addr, label string) (as []netip.Addr) {
+	p := rapid.Permutation(pool).Draw(t, label+"Order")
+
+	return p[:rapid.IntRange(1, 2).Draw(t, label+"N")]
+}
+
+func drawHTTPSRec(t *rapid.T) (r HTTPSRec) {
+	switch rapid.IntRange(0, 4).Draw(t, "hintKind") {
+	case 0:
+		r.V4 = drawAddrs(t, MarkerV4, "hint4")
+	case 1:
+		r.V6 = drawAddrs(t, MarkerV6, "hint6")
+	case 2, 3:
+		r.V4, r.V6 = drawAddrs(t, MarkerV4, "hint4"), drawAddrs(t, MarkerV6, "hint6")
+	default:
+		r.V4, r.V6, r.V6First = drawAddrs(t, MarkerV4, "hint4"), drawAddrs(t, MarkerV6, "hint6"), true
+	}
+
+	return r
+}
+
+// BiasHints turns u, now and then, into an HTTPS answer in which the first hint
+// parameter of a record is clean under c and a later one (or a later record)
+// carries an address on which the rules of c have a verdict.
+func BiasHints(t *rapid.T, u *UpAnswer, c *Config, qt uint16) {
+	if c == nil {
+		return
+	}
+
+	split := func(pool []netip.Addr) (clean, hit []netip.Addr) {
+		for _, ip := range pool {
+			if c.HasVerdict(AnswerName{Host: ip.String(), Type: dns.TypeHTTPS}) {
+				hit = append(hit, ip)
+			} else {
+				clean = append(clean, ip)
+			}
+		}
+
+		return clean, hit
+	}
+
+	clean4, hit4 := split(MarkerV4)
+	clean6, hit6 := split(MarkerV6)
+	var recs [][]HTTPSRec
+	if len(clean4) > 0 && len(hit6) > 0 {
+		recs = append(recs, []HTTPSRec{{V4: clean4, V6: append(append([]netip.Addr{}, clean6...), hit6[0])}})
+		recs = append(recs, []HTTPSRec{{V4: clean4[:1]}, {V4: clean4[:1], V6: hit6}})
+	}
+
+	if len(clean6) > 0 && len(hit4) > 0 {
+		recs = append(recs, []HTTPSRec{{V6: clean6, V4: append(append([]netip.Addr{}, clean4...), hit4[0]), V6First: true}})
+	}
+
+	if len(recs) == 0 {
+		return
+	}
+
+	p := 6
+	if qt == dns.TypeHTTPS {
+		p = 2
+	}
+
+	if rapid.IntRange(0, p-1).Draw(t, "biasHints") != 0 {
+		return
+	}
+
+	u.Shape = UpHTTPS
+	u.HTTPS = recs[rapid.IntRange(0, len(recs)-1).Draw(t, "biasHintsForm")]
 }
 
 // DrawUpAnswer draws an upstream answer script for a question of type qt.
@@ -578,6 +661,12 @@ func DrawUpAnswer(t *rapid.T, qt uint16) (u UpAnswer) {
 
 	u.V6 = []netip.Addr{rapid.SampledFrom(MarkerV6).Draw(t, "upV6")}
 	u.Target = rapid.SampledFrom(MarkerTargets).Draw(t, "upTarget")
+	if u.Shape == UpHTTPS {
+		n := rapid.IntRange(1, 2).Draw(t, "upNHTTPS")
+		for i := 0; i < n; i++ {
+			u.HTTPS = append(u.HTTPS, drawHTTPSRec(t))
+		}
+	}
 
 	return u
 }
@@ -619,14 +708,40 @@ func (u UpAnswer) Build(req *dns.Msg) (resp *dns.Msg) {
 	case UpCNAME:
 		resp.Answer = append([]dns.RR{&dns.CNAME{Hdr: hdr(q.Name, dns.TypeCNAME), Target: dns.Fqdn(u.Target)}}, addrs(dns.Fqdn(u.Target))...)
 	case UpHTTPS:
-		rr := &dns.HTTPS{SVCB: dns.SVCB{Hdr: hdr(q.Name, dns.TypeHTTPS), Priority: 1, Target: "."}}
-		v4 := &dns.SVCBIPv4Hint{}
-		for _, ip := range u.V4 {
-			v4.Hint = append(v4.Hint, ip.AsSlice())
+		recs := u.HTTPS
+		if len(recs) == 0 {
+			recs = []HTTPSRec{{V4: u.V4}}
 		}
 
-		rr.Value = append(rr.Value, v4)
-		resp.Answer = []dns.RR{rr}
+		for i, rec := range recs {
+			rr := &dns.HTTPS{SVCB: dns.SVCB{Hdr: hdr(q.Name, dns.TypeHTTPS), Priority: uint16(i + 1), Target: "."}}
+			var v4, v6 dns.SVCBKeyValue
+			if len(rec.V4) > 0 {
+				h := &dns.SVCBIPv4Hint{}
+				for _, ip := range rec.V4 {
+					h.Hint = append(h.Hint, ip.AsSlice())
+				}
+
+				v4 = h
+			}
+
+			if len(rec.V6) > 0 {
+				h := &dns.SVCBIPv6Hint{}
+				for _, ip := range rec.V6 {
+					h.Hint = append(h.Hint, ip.AsSlice())
+				}
+
+				v6 = h
+			}
+
+			for _, kv := range map[bool][]dns.SVCBKeyValue{false: {v4, v6}, true: {v6, v4}}[rec.V6First] {
+				if kv != nil {
+					rr.Value = append(rr.Value, kv)
+				}
+			}
+
+			resp.Answer = append(resp.Answer, rr)
+		}
 	case UpNoData:
 		resp.Ns = []dns.RR{soa}
 	case UpNXDomain:
